@@ -116,19 +116,21 @@ func (w World) config(proofType string) *repo.Config {
 
 // Policy is the per-replica perturbation ("schedule") of a run.
 type Policy struct {
-	ProofType string `json:"proof_type"` // serial | parallel
-	Cache     int    `json:"cache"`      // LRU size, 0 = shipped
-	RestartAt []int  `json:"restart_at"` // stop+reopen after these block indexes
-	Reader    bool   `json:"reader"`     // slow disk + concurrent API reader: while the block's state commit waits at the stalled store, every state key and account the block changed is read through the read-write ledger (what the JSON-RPC / gRPC account and storage queries do)
+	ProofType string `json:"proof_type"`           // serial | parallel
+	Cache     int    `json:"cache"`                // LRU size, 0 = shipped
+	RestartAt []int  `json:"restart_at"`           // stop+reopen after these block indexes
+	Reader    bool   `json:"reader"`               // slow disk + concurrent API reader: while the block's state commit waits at the stalled store, every state key and account the block changed is read through the read-write ledger (what the JSON-RPC / gRPC account and storage queries do)
 	ApiReader int    `json:"api_reader,omitempty"` // concurrent account-API reader at the yield points of the flush/commit path: chance (per mille) per yield point that a balance query (coreapi GetAccount: Ledger.Copy().GetOrCreateAccount) runs exactly there
 }
 
 // apiReader is the state of the concurrent account-API reader of one block (Policy.ApiReader).
 type apiReader struct {
-	rnd    *sim.Rand
-	permil int
-	addrs  []*types.Address
-	landed []string // "<site>#<statement>" of the yield points where the reader ran
+	rnd      *sim.Rand
+	permil   int
+	addrs    []*types.Address
+	contract *types.Address // a deployed user contract whose code and records are queried too (nil: none)
+	keys     []string
+	landed   []string // "<site>#<statement>" of the yield points where the reader ran
 }
 
 type replica struct {
@@ -353,7 +355,14 @@ func (r *replica) executeWithApiReader(ev *pb.CommitEvent, watchdog time.Duratio
 			return
 		}
 		for _, a := range ar.addrs {
-			r.lg.Copy().GetOrCreateAccount(a).GetBalance()
+			r.lg.Copy().GetOrCreateAccount(a).GetBalance() // coreapi GetAccount (gRPC account balance)
+			r.lg.GetNonce(a)                               // eth_getTransactionCount
+		}
+		if ar.contract != nil {
+			r.lg.GetCode(ar.contract) // eth_getCode
+			for _, k := range ar.keys {
+				r.lg.GetState(ar.contract, []byte(k)) // eth_getStorageAt
+			}
 		}
 		ar.landed = append(ar.landed, fmt.Sprintf("%s#%d", site, idx))
 	}
